@@ -81,6 +81,13 @@ pub fn nal_units(codec: VCodec, key: bool, with_cfg: bool, tag: u32, len: usize)
         }
         _ => panic!("not a NAL codec"),
     }
+    // every third frame also carries very short units (a 1-byte unit before the slice, a 2-byte
+    // unit after it): the conversion must keep every non-empty unit, whatever its length
+    if tag % 3 == 2 {
+        let at = u.len() - 1;
+        u.insert(at, vec![if codec == VCodec::H264 { 0x09 } else { 0x4a }]);
+        u.push(if codec == VCodec::H264 { vec![0x0b, 0x80] } else { vec![0x4a, 0x01] });
+    }
     u
 }
 
@@ -591,13 +598,19 @@ pub fn video_frame_variant(codec: VCodec, key: bool, with_cfg: bool, tag: u32, l
         VCodec::H264 => {
             let mut s = vec![if key { 0x65 } else { 0x41 }];
             s.extend(body(tag, len.max(1)));
-            let u = vec![h264_sps(variant), h264_pps(variant), s];
+            // the order of the parameter sets varies too (any order before the slice is legal)
+            let u = if variant % 2 == 0 { vec![h264_pps(variant), h264_sps(variant), s] } else { vec![h264_sps(variant), h264_pps(variant), s] };
             (annexb(&u, tag % 2 == 1), length_prefixed(&u))
         }
         VCodec::H265 => {
             let mut s = vec![if key { 0x26 } else { 0x02 }, 0x01];
             s.extend(body(tag, len.max(1)));
-            let u = vec![h265_vps(variant), h265_sps(variant), h265_pps(variant), s];
+            let (v, sp, pp) = (h265_vps(variant), h265_sps(variant), h265_pps(variant));
+            let u = match variant % 3 {
+                0 => vec![pp, sp, v, s],
+                1 => vec![sp, pp, v, s],
+                _ => vec![v, pp, sp, s],
+            };
             (annexb(&u, tag % 2 == 1), length_prefixed(&u))
         }
         VCodec::Av1 => {
